@@ -14,6 +14,9 @@ MANIFEST = {
             "differential runs I vs M vs S: every (offset, buflen) pair up to listing length + 2 on generated tables/filters with "
             "exact-size heap objects under ASan/UBSan, plus a real block-wise GET through coap_dispatch() for every SZX. "
             "get_reassembles: a GET with any Uri-Query options and any block size yields the listing for the first option. "
+            "interleaved_gets_reassemble: block requests of any number of transfers with any filters may interleave in any order on "
+            "one or several sessions - the Block2 response cache, keyed by coap_get_query()'s string (injective by C16), serves "
+            "every transfer from its own listing; checked against real interleaved GETs through coap_dispatch() (getx). "
             "Four defects found by the check were fixed in libcoap (match() prefix overread / cross-token match, read behind an "
             "empty pattern, quote stripping with SIZE_MAX length, GET path filtering on the percent-encoded query); none is open.",
     "note": "Trusted: Lean kernel (+ propext, Classical.choice, Quot.sound), harness/generator/judge, the hand transcription M "
@@ -25,20 +28,25 @@ LEAN_MODULES = ["CoapVerif.Props.C20"]
 NAMESPACE = "Coap.C20"
 REQUIRED_THEOREMS = ["window_exact", "total_exact", "trunc_flag_iff", "listing_exactly_registered", "match_eq_spec",
                      "match_no_overread", "block_get_reassembles", "wellknown_eq", "filter_eq_spec", "get_body_eq_listing",
-                     "get_reassembles", "get_query_with_space_listed"]
+                     "get_reassembles", "get_query_with_space_listed",
+                     "interleaved_gets_reassemble", "interleaved_gets_reassemble_of_keyed", "keyed_of_small"]
 RULE = ("resource tables built by 0..12 coap_add_resource/coap_delete_resource calls (paths from a small pool so that "
         "re-registration happens, 0..4 attributes with/without value, quoted/unquoted/empty/one-byte/malformed-quote values, "
         "observable / OSCORE-only markers, library-copied or caller-owned exact-size strings) x filters (none, NULL, href/rt/if/rel/"
         "other names; token, prefix*, pattern longer than a token, pattern with SP, leading '/', empty, no '=', empty name) x "
         "ALL (offset, buflen) pairs up to listing length + 2 for listings up to the tier's size limit (sampled rows/columns "
         "beyond), plus the size-probe/full-print body of the GET handler, a real block-wise GET through coap_dispatch() for "
-        "every Block2 size (SZX 0..6) and match() on short strings over {a,b,SP}; "
+        "every Block2 size (SZX 0..6), interleaved block-wise GETs (2-3 transfers with different/equal/no filters on one or two "
+        "sessions, round-robin / bug-order / sequential / random orders) and match() on short strings over {a,b,SP}; "
         "non-trivial = distinct input whose listing is non-empty")
 TRUSTED_BASE = ["Lean 4.33 kernel; axioms allowed: propext, Classical.choice, Quot.sound (audited per theorem each run)",
                 "harness/linkfmt.c + generator + field-wise comparison in props/C20.py",
                 "M (CoapVerif/Model/LinkFormat.lean) is a hand transcription of the PRINT_* macros, coap_print_link, match(), "
                 "coap_find_attr, coap_print_wellknown_lkd and the two calls of hnd_get_wellknown_lkd; checked against the compiled "
                 "code only on the cases run",
+                "M of the Block2 response cache (CoapVerif/Model/WkBlock.lean: coap_handle_request_send_block / coap_find_lg_xmit_response / "
+                "coap_add_data_large_internal as far as they decide which body a block comes from; GET + Block2 only, no ETag/Request-Tag/"
+                "Observe/Q-Block, no expiry) - checked by the getx differential; the block layer as a whole is C09's",
                 "uthash iterates in insertion order and coap_add_resource replaces an equal path (modelled by Spec register/unregister, "
                 "exercised by the generator, not proved)"]
 ASSUMPTIONS = ["buflen <= COAP_PRINT_STATUS_MAX (0x0FFFFFFF) and offset + buflen < 2^64 (no wrap of the status word / size_t)",
@@ -56,6 +64,13 @@ SPEC_DECISIONS = ["D20.1 attributes are listed in table order (most recently add
                   "D20.6 with a repeated attribute name the filter looks at the first one the table holds",
                   "D20.7 a resource registered as .well-known/core is not listed",
                   "D20.8 GET with several Uri-Query options: the first one is the search criterion, the others do not restrict the listing"]
+
+
+def extract(ctx):
+    """the cache key of the interleaving theorem is coap_get_query()'s string: its model (C16) computes with the escape tables
+    regenerated from the tree (T1), so they are refreshed here as well"""
+    import props.C16 as c16
+    return c16.extract(ctx)
 
 
 def harness(ctx):
@@ -226,6 +241,49 @@ def pack(table, flt, ws, per=192):
     return out
 
 
+def getx_lines(rng, n):
+    """interleaved block-wise GETs: 2-3 transfers with different (sometimes equal) Uri-Query options, incl. none, on one or
+    two sessions; the order string says whose next block request is sent; unfinished transfers are completed afterwards"""
+    out = []
+    while len(out) < n:
+        nres = rng.choice([2, 3, 3, 4, 5, 6, 8])
+        ents = [e for e in gen_table(rng, nres) if not (e[0] == "+" and e[1] == b".well-known/core")]
+        if not ents:
+            continue
+        t = enc_table(ents)
+        fs = gen_filters(rng, ents, 4)            # "N", "-", then table-derived filters (hex)
+        nx = rng.choice([2, 2, 3, 3])
+        qs = []
+        for i in range(nx):
+            c = rng.random()
+            if c < 0.3 or len(fs) <= 2:
+                q = "N"
+            else:
+                q = rng.choice(fs[2:])
+                if len(q) > 2 * 200:
+                    q = "N"
+                elif rng.random() < 0.1:
+                    q = q + "+" + rng.choice(["78", "-", "72743d61"])
+            qs.append(q)
+        if qs.count("N") == nx and len(fs) > 2:
+            qs[rng.randrange(nx)] = fs[2]
+        two = rng.random() < 0.3
+        xf = "/".join("%d@%s" % ((rng.randint(0, 1) if two else 0), q) for q in qs)
+        szx = rng.choice([0, 0, 0, 0, 1, 1, 2])
+        ub = upper_len(ents) // (16 << szx) + 2
+        c = rng.random()
+        if c < 0.35:        # strict round robin
+            order = "".join(str(i) for _ in range(ub) for i in range(nx))
+        elif c < 0.5:       # first blocks of everybody, then transfer 0 continues (the order of the seeded bug), the rest later
+            order = "".join(str(i) for i in range(nx)) + "0" * ub
+        elif c < 0.6:       # one after the other
+            order = ""
+        else:               # random
+            order = "".join(str(rng.randrange(nx)) for _ in range(rng.randint(1, ub * nx)))
+        out.append("getx %s %d %s:%s" % (t, szx, xf, order[:600]))
+    return out
+
+
 def match_lines(rng, n, exhaustive):
     out = []
     alpha = [b"a", b"b", b" "]
@@ -294,6 +352,7 @@ def generate(ctx, escalate=False):
                     out.append("get %s %s %d" % (t, qs, szx))
     ctx.cov["exhaustive"] = {"table_filter_pairs_with_all_windows": nfull, "pairs_with_edge_rows_columns_and_sample": nsampled,
                              "full_window_limit": full_limit, "printer_calls": nwin, "tables": ntables}
+    out += getx_lines(rng, 2500 if thorough else 400)
     out += match_lines(rng, 6000, thorough)
     return out
 
@@ -331,6 +390,14 @@ def judge(ctx, c):
                 return ("spec", "window %s: reported total %s, listing length %s" % (a, fx[2], fy[2]))
             if fy[1] != "?" and fx[1] != fy[1]:
                 return ("spec", "window %s: truncation flag %s, expected %s" % (a, fx[1], fy[1]))
+    elif op == "getx":
+        xi, xs_ = i.split(","), (s or "").split(",")
+        if len(xi) != len(xs_):
+            return ("spec", "implementation %s but the specification says %s" % (short(i), short(s)))
+        for k, (a, b) in enumerate(zip(xi, xs_)):
+            if a != b:
+                return ("spec", "transfer %d of the interleaving reassembles to %s (body:responses), its own listing is %s"
+                        % (k, short(a), short(b)))
     else:
         if i != s:
             return ("spec", "implementation %s but the specification says %s" % (short(i), short(s)))
@@ -349,6 +416,8 @@ def nontrivial(c):
         return True
     if c["input"].startswith("wk"):
         return not s.startswith("F-;")
+    if c["input"].startswith("getx"):
+        return any(not w.startswith("-:") for w in s.split(","))
     return s not in ("", "-") and not s.startswith("-:")
 
 
@@ -365,11 +434,44 @@ def search(ctx, tie_breaks, proof):
     return generate(ctx, escalate=True)
 
 
+def shrink_getx(ctx, case):
+    """shortest prefix of the order that still fails, then drop table entries"""
+    from vlib.runner import diff_side
+    import props.C20 as me
+    best = case
+    p = case["input"].split()
+    xf, order = p[3].split(":")
+    lines = ["getx %s %s %s:%s" % (p[1], p[2], xf, order[:k]) for k in range(len(order))]
+    for cc in diff_side(ctx, me, lines):
+        v = judge(ctx, cc)
+        if v and v[0] == "spec":
+            cc["why"] = v[1]; best = cc
+            break
+    for _ in range(4):
+        p = best["input"].split()
+        ents = p[1].split(",")
+        if len(ents) <= 1:
+            break
+        lines = ["getx %s %s %s" % (",".join(ents[:k] + ents[k + 1:]), p[2], p[3]) for k in range(len(ents))]
+        hit = None
+        for cc in diff_side(ctx, me, lines):
+            v = judge(ctx, cc)
+            if v and v[0] == "spec":
+                cc["why"] = v[1]; hit = cc
+                break
+        if not hit:
+            break
+        best = hit
+    return best
+
+
 def shrink(ctx, case):
     """keep one window; then drop table entries / attributes while the implementation still contradicts S"""
     from vlib.runner import diff_side
     import props.C20 as me
     p = case["input"].split()
+    if p[0] == "getx":
+        return shrink_getx(ctx, case)
     if p[0] != "wk":
         return case
     best = case
